@@ -7,8 +7,8 @@
    A (nil, nil) answer of Next ([ONil], which the repaired reader never gives) is modelled as
    the nil slice with no error, so that the following b[0] / BigEndian.Uint32(b) panics as in Go.
 
-   Container counts are [int(binary.BigEndian.Uint32(..))]: non-negative on 64-bit platforms, the
-   "sz < 0" tests are dead code (kept below as written). *)
+   Container counts are [int(binary.BigEndian.Uint32(..))] (0 .. 2^32-1 on 64-bit platforms);
+   skipType tests [int32(sz) < 0], i.e. the sign bit of the 32-bit wire value. *)
 From GV Require Import Lib.Bytes Lib.Res Gen.Consts Model.Binary Model.BufReader Model.Skip.
 Open Scope N_scope.
 
@@ -107,7 +107,7 @@ Fixpoint brskip (d : nat) (fu : nat) (st : rstate) (t : N) {struct d} : sres rst
     else if is_ty t thrift_MAP then
       sbind (br_map_begin st) (fun st1 h =>
         let '(kt, vt, sz) := h in
-        if (Z.of_N sz <? 0)%Z then (st1, Err e_neg_size) else        (* dead: int(uint32) >= 0 *)
+        if (i32 sz <? 0)%Z then (st1, Err e_neg_size) else           (* if int32(sz) < 0 *)
         sbind (sret st1 (tts SBufferReader kt)) (fun st1 ksz =>
         sbind (sret st1 (tts SBufferReader vt)) (fun st1 vsz =>
         if (0 <? ksz)%Z && (0 <? vsz)%Z then br_skipn st1 (Z.of_N sz * (ksz + vsz))
@@ -117,7 +117,7 @@ Fixpoint brskip (d : nat) (fu : nat) (st : rstate) (t : N) {struct d} : sres rst
     else if is_ty t thrift_LIST || is_ty t thrift_SET then
       sbind (br_list_begin st) (fun st1 h =>
         let '(vt, sz) := h in
-        if (Z.of_N sz <? 0)%Z then (st1, Err e_neg_size) else        (* dead *)
+        if (i32 sz <? 0)%Z then (st1, Err e_neg_size) else           (* if int32(sz) < 0 *)
         sbind (sret st1 (tts SBufferReader vt)) (fun st1 vsz =>
         if (0 <? vsz)%Z then br_skipn st1 (Z.of_N sz * vsz)
         else
